@@ -512,6 +512,18 @@ def corr_folding(ck):
 # ------------------------------------------------------------------------------------------------------------
 # search: oracles on the real code that do not use the model
 
+MAX_REPLAYS = 30
+
+
+def cx(ck, key, *a, **kw):
+    """ck.counterexample, writing at most MAX_REPLAYS replay files per run (all are counted)"""
+    if ck.match_known(key) is None:
+        ck.extra['counterexamples_found'] = ck.extra.get('counterexamples_found', 0) + 1
+        if ck.extra['counterexamples_found'] > MAX_REPLAYS:
+            return True
+    return ck.counterexample(key, *a, **kw)
+
+
 def brute_paths(adj, lo, hi):
     """all simple paths with lo..hi atoms by depth-first extension from every atom; one tuple per undirected path
     (as a frozenset of the two orientations)"""
@@ -597,7 +609,7 @@ def search_molecule(ck, tag, smi, m, rng, budget_params):
         if set(as_pairs) != exp or any(v != 1 for v in as_pairs.values()) or any(len(c) > 1 and not c[0] > c[-1] for c in got):
             extra_ = [sorted(p)[0] for p in set(as_pairs) - exp][:3]
             missing = [sorted(p)[0] for p in exp - set(as_pairs)][:3]
-            ck.counterexample(f'chains:{tag}:{lo}:{hi}', '_chains is not the set of simple paths with min..max atoms in one orientation',
+            cx(ck, f'chains:{tag}:{lo}:{hi}', '_chains is not the set of simple paths with min..max atoms in one orientation',
                               {'molecule': tag, 'min_radius': lo, 'max_radius': hi}, {'not simple paths in range / duplicated': extra_, 'missing': missing},
                               f'{len(exp)} undirected simple paths', 'depth-first brute-force path enumerator',
                               replay_py=rp + f"print(sorted(m._chains({lo}, {hi})))" if smi else None)
@@ -606,7 +618,7 @@ def search_molecule(ck, tag, smi, m, rng, budget_params):
         cnt = brute_fragment_counts(m, adj, lo, hi)
         fr = m._fragments(lo, hi)
         if {k: len(v) for k, v in fr.items()} != dict(cnt):
-            ck.counterexample(f'fragments:{tag}:{lo}:{hi}', '_fragments keys / multiplicities differ from the path oracle',
+            cx(ck, f'fragments:{tag}:{lo}:{hi}', '_fragments keys / multiplicities differ from the path oracle',
                               {'molecule': tag, 'min_radius': lo, 'max_radius': hi}, len(fr), len(cnt), 'brute-force fragment counter',
                               replay_py=rp + f"print(m._fragments({lo}, {hi}))" if smi else None)
             continue
@@ -618,7 +630,7 @@ def search_molecule(ck, tag, smi, m, rng, budget_params):
             n_eval += 1
             ck.case(('hashset', tag, lo, hi, nbp), nontrivial=any(v > 1 for v in cnt.values()))
             if got_h != exp_h:
-                ck.counterexample(f'hash_set:{tag}:{lo}:{hi}:{nbp}', 'linear_hash_set differs from {hash((*key, c)) for c < min(count, number_bit_pairs)}',
+                cx(ck, f'hash_set:{tag}:{lo}:{hi}:{nbp}', 'linear_hash_set differs from {hash((*key, c)) for c < min(count, number_bit_pairs)}',
                                   {'molecule': tag, 'min_radius': lo, 'max_radius': hi, 'number_bit_pairs': nbp},
                                   f'{len(got_h)} hashes, {len(got_h ^ exp_h)} differ', f'{len(exp_h)} hashes', 'brute-force fragment counter + multiplicity cap',
                                   replay_py=rp + f"print(sorted(m.linear_hash_set({lo}, {hi}, {nbp})))" if smi else None)
@@ -631,7 +643,7 @@ def search_molecule(ck, tag, smi, m, rng, budget_params):
             ck.case(('bitset', tag, lo, hi, nbp, length, nab))
             n_eval += 1
             if bits != exp_b or any(not (0 <= x < length) for x in bits):
-                ck.counterexample(f'bit_set:{tag}:{lo}:{hi}:{nbp}:{length}:{nab}',
+                cx(ck, f'bit_set:{tag}:{lo}:{hi}:{nbp}:{length}:{nab}',
                                   'linear_bit_set is not the union of the log2(length)-bit windows of the hashes / index out of range',
                                   {'molecule': tag, 'args': [lo, hi, length, nab, nbp]}, sorted(bits - exp_b)[:5] + sorted(exp_b - bits)[:5],
                                   'windows (h // 2^(i*k)) % 2^k, i < active bits', 'arithmetic definition of the folding',
@@ -639,7 +651,7 @@ def search_molecule(ck, tag, smi, m, rng, budget_params):
             if length <= 4096:
                 fp = m.linear_fingerprint(lo, hi, length, nab, nbp)
                 if len(fp) != length or set(int(i) for i in fp.nonzero()[0]) != bits or int(fp.max(initial=0)) > 1:
-                    ck.counterexample(f'fingerprint:{tag}:{lo}:{hi}:{nbp}:{length}:{nab}', 'linear_fingerprint is not the indicator vector of linear_bit_set',
+                    cx(ck, f'fingerprint:{tag}:{lo}:{hi}:{nbp}:{length}:{nab}', 'linear_fingerprint is not the indicator vector of linear_bit_set',
                                       {'molecule': tag, 'args': [lo, hi, length, nab, nbp]}, int(fp.sum()), len(bits), 'indicator vector',
                                       replay_py=None)
         # (4) Morgan
@@ -649,7 +661,7 @@ def search_molecule(ck, tag, smi, m, rng, budget_params):
             ck.case(('morgan', tag, lo, hi))
             n_eval += 1
             if got_m != exp_m:
-                ck.counterexample(f'morgan:{tag}:{lo}:{hi}', 'morgan_hash_set differs from the iterated neighbourhood identifiers of the requested radii',
+                cx(ck, f'morgan:{tag}:{lo}:{hi}', 'morgan_hash_set differs from the iterated neighbourhood identifiers of the requested radii',
                                   {'molecule': tag, 'min_radius': lo, 'max_radius': hi}, len(got_m ^ exp_m), 0, 'recursive neighbourhood hasher',
                                   replay_py=rp + f"print(sorted(m.morgan_hash_set({lo}, {hi})))" if smi else None)
             k = rng.choice([1, 4, 10, 11, 16])
@@ -657,7 +669,7 @@ def search_molecule(ck, tag, smi, m, rng, budget_params):
             bits = m.morgan_bit_set(lo, hi, 2 ** k, nab)
             exp_b = set().union(*(window_bits(h, 2 ** k, nab) for h in exp_m)) if exp_m else set()
             if bits != exp_b or any(not (0 <= x < 2 ** k) for x in bits):
-                ck.counterexample(f'morgan_bits:{tag}:{lo}:{hi}:{2 ** k}:{nab}', 'morgan_bit_set is not the union of the windows of the hashes / index out of range',
+                cx(ck, f'morgan_bits:{tag}:{lo}:{hi}:{2 ** k}:{nab}', 'morgan_bit_set is not the union of the windows of the hashes / index out of range',
                                   {'molecule': tag, 'args': [lo, hi, 2 ** k, nab]}, sorted(bits ^ exp_b)[:8], 'windows', 'arithmetic definition of the folding',
                                   replay_py=rp + f"print(sorted(m.morgan_bit_set({lo}, {hi}, {2 ** k}, {nab})))" if smi else None)
     # (5) invariance under renumbering and insertion-order shuffling, default and random parameters
@@ -675,7 +687,7 @@ def search_molecule(ck, tag, smi, m, rng, budget_params):
         'linear_smiles_hash values': set(h for v in m.linear_smiles_hash(lo, hi, nbp).values() for h in v),
     }
     if base['linear_hash_smiles keys'] != base['linear_hash_set'] or base['linear_smiles_hash values'] != base['linear_hash_set']:
-        ck.counterexample(f'hash_smiles_keys:{tag}', 'keys of linear_hash_smiles / values of linear_smiles_hash differ from linear_hash_set',
+        cx(ck, f'hash_smiles_keys:{tag}', 'keys of linear_hash_smiles / values of linear_smiles_hash differ from linear_hash_set',
                           {'molecule': tag, 'args': [lo, hi, nbp]}, len(base['linear_hash_smiles keys']), len(base['linear_hash_set']), 'self-consistency')
     for variant, mk in (('renumbered', renumbered), ('order-shuffled', order_shuffled), ('renumbered+shuffled', lambda x, r: order_shuffled(renumbered(x, r), r))):
         m2 = mk(m, rng)
@@ -694,7 +706,7 @@ def search_molecule(ck, tag, smi, m, rng, budget_params):
         ck.case(('invariance', tag, variant, lo, hi, nbp, nab, length))
         for name in base:
             if got[name] != base[name]:
-                ck.counterexample(f'invariance:{name}:{variant}:{tag}', f'{name} changes when the molecule is {variant}',
+                cx(ck, f'invariance:{name}:{variant}:{tag}', f'{name} changes when the molecule is {variant}',
                                   {'molecule': tag, 'variant': variant, 'atoms': list(m2._atoms), 'bonds': {n: list(v) for n, v in m2._bonds.items()},
                                    'args': {'min_radius': lo, 'max_radius': hi, 'number_bit_pairs': nbp, 'number_active_bits': nab, 'length': length}},
                                   'differs', 'identical', 'same molecule, other numbering / insertion order')
@@ -714,7 +726,7 @@ def search_molecule(ck, tag, smi, m, rng, budget_params):
             spell.setdefault(hash((*key, c)), set()).update(ss)
     for hsh, sm in m.linear_hash_smiles(lo, hi, nbp).items():
         if not set(sm) <= spell.get(hsh, set()):
-            ck.counterexample(f'hash_smiles_spelling:{tag}', 'linear_hash_smiles attaches a SMILES that spells none of the chains of that fragment',
+            cx(ck, f'hash_smiles_spelling:{tag}', 'linear_hash_smiles attaches a SMILES that spells none of the chains of that fragment',
                               {'molecule': tag, 'hash': hsh}, sm, sorted(spell.get(hsh, ()))[:5], 'fragment spelling')
             break
     if smi and len(m._atoms) <= 40:
@@ -723,10 +735,10 @@ def search_molecule(ck, tag, smi, m, rng, budget_params):
         c = {k: sorted(v) for k, v in m2.morgan_hash_smiles(1, 3).items()}
         ck.case(('morgan_hash_smiles', tag))
         if set(a) != m.morgan_hash_set(1, 3):
-            ck.counterexample(f'morgan_hash_smiles_keys:{tag}', 'keys of morgan_hash_smiles differ from morgan_hash_set', {'molecule': tag}, len(a), len(m.morgan_hash_set(1, 3)), 'self-consistency')
+            cx(ck, f'morgan_hash_smiles_keys:{tag}', 'keys of morgan_hash_smiles differ from morgan_hash_set', {'molecule': tag}, len(a), len(m.morgan_hash_set(1, 3)), 'self-consistency')
         elif a != c:
             diff = [k for k in a if a[k] != c.get(k)][:2]
-            ck.counterexample(f'morgan_hash_smiles_renumbering:{tag}', 'morgan_hash_smiles changes under renumbering',
+            cx(ck, f'morgan_hash_smiles_renumbering:{tag}', 'morgan_hash_smiles changes under renumbering',
                               {'molecule': tag, 'mapping': dict(zip(m._atoms, m2._atoms))}, [c.get(k) for k in diff], [a[k] for k in diff], 'renumbering')
     return n_eval
 
@@ -752,7 +764,7 @@ def known_witness(ck):
     if len(seen) > 1:
         (r1, map1), (r2, map2) = list(seen.items())[:2]
         diff = [(a, bb) for a, bb in zip(r1, r2) if a != bb][:2]
-        ck.counterexample('linear_hash_smiles-numbering:' + KNOWN_SMILES, 'linear_hash_smiles(1, 1) of methoxide + hydroxide depends on the atom numbering '
+        cx(ck, 'linear_hash_smiles-numbering:' + KNOWN_SMILES, 'linear_hash_smiles(1, 1) of methoxide + hydroxide depends on the atom numbering '
                           "(the SMILES shown for the O- fragment is '[O-]' or '[OH-]')", {'smiles': KNOWN_SMILES, 'mapping_a': map1, 'mapping_b': map2},
                           [d[1] for d in diff], [d[0] for d in diff], 'same molecule, other numbering',
                           replay_py="from chython import smiles\nm = smiles('C[O-].[OH-]'); a = m.linear_hash_smiles(1, 1)\n"
@@ -837,7 +849,7 @@ def directed_fold_search(ck, bad_fold):
         exp = set().union(*(window_bits(h, ln, nab) for h in hs)) if hs else set()
         ck.case(('directed-fold', what, ln, nab, tuple(hs)))
         if bits != exp:
-            ck.counterexample(f'folding:{name}:{ln}:{nab}:{hs}', f'{name} does not set exactly the log2(length)-bit windows of the hashes (indices below length, '
+            cx(ck, f'folding:{name}:{ln}:{nab}:{hs}', f'{name} does not set exactly the log2(length)-bit windows of the hashes (indices below length, '
                               'max(1, number_active_bits) windows per hash)', {'hashes': hs, 'length': ln, 'number_active_bits': nab},
                               sorted(bits) if isinstance(bits, set) else bits, sorted(exp), 'arithmetic definition of the folding',
                               replay_py=FOLD_REPLAY.format(name=name, hs=hs, ln=ln, nab=nab))
